@@ -314,7 +314,10 @@ func ruleSymbolicIdentity(c *Ctx, rule string) {
 		if _, isK := ops[0][0].(*ssa.Const); isK {
 			// early return (1, genesis): time must be the genesis parameter
 			c.Ok(rule, "NextRound before genesis returns round 1 at the genesis time", shortPos(c.P, r),
-				ops[1][0] == ssa.Value(nr.Params[2]) && constIs(ops[0][0], 1) && dcGuarded(r, DCons{nr.Params[0].Name(), nr.Params[2].Name(), -1}), "")
+				// (1, genesis) is a consistent (round, time) pair whatever the inputs; it is the *next* round only before genesis,
+				// or for a period outside the domain (<= 0), where there is nothing to divide by
+				ops[1][0] == ssa.Value(nr.Params[2]) && constIs(ops[0][0], 1) &&
+					(dcGuarded(r, DCons{nr.Params[0].Name(), nr.Params[2].Name(), -1}) || dcGuarded(r, DCons{nr.Params[1].Name(), "0", 0})), "")
 			continue
 		}
 		// name the internal round variable N: the operand of the final +1
